@@ -113,7 +113,7 @@ class Simulator:
             if event_hook.time is not None
             else cast(List[Optional[int]], [None])
         )
-        for time_ in times:
+        for time_ in dict.fromkeys(times):
             if time_ not in self.events_dict[register_name]:
                 self.events_dict[register_name][time_] = []
             self.events_dict[register_name][time_].append(event_hook)
